@@ -896,7 +896,7 @@ def run_c19(ctx):
     import subprocess, tempfile
     ctx.known_hits = collections.Counter()
     covs = {}
-    fams = ["srv-burst", "srv-basic", "srv-err", "srv-goaway", "srv-soup", "cliflow", "cliresolve", "cligoaway", "clirace"]
+    fams = ["srv-burst", "srv-basic", "srv-err", "srv-goaway", "srv-soup", "cliflow", "cliresolve", "cligoaway", "clirace", "clistall"]
     hb = os.path.join(ctx.root, "bin", "h2harness")
     for area in fams:
         p = subprocess.run([hb, "gen", area, ctx.tier, str(ctx.seed)], stdout=subprocess.PIPE, stderr=subprocess.PIPE, text=True)
@@ -920,6 +920,12 @@ def run_c19(ctx):
             start = max(j for j in range(k + 1) if " new " in ops[j] or j == 0)
             ctx.violations.append(dict(kind="response-touched-while-handler-owns-it", detail=dict(family=area, n=len(touched), out=i[k][:200]),
                                        ops=[l for l in ops[start:k + 1]][:400]))
+        if area.startswith("cli"):
+            # a pooled frame the caller still holds as an error value: what it says must stay what the peer sent
+            import area_client
+            for c in area_client.split_conns(o, i):
+                for (kind, detail) in area_client.mon_errvalue(c):
+                    ctx.violations.append(dict(kind="pooled-frame-still-referenced:" + kind, detail=dict(family=area, what=detail), ops=c.lines))
         if area.startswith("srv") and area != "srv-burst":
             cov, diffs = srv_compare(ctx, area, o[1:-1], i[1:-1], m[1:-1])
         else:
